@@ -8,21 +8,21 @@ PROP = dict(
              'distinct = by hash of (op, observation); non-trivial = a mutating op or a lookup that found a node',
         trusted=['harness bookkeeping only chooses operations; contracts are re-decided by the Lean driver on the dumped pool'],
         assumptions=['sequential use of one ObjectTree', 'pool length < 2^32-1 (uint32 indices)'],
-        level_text='Lean theorems over the index-linked pool model of obj_tree.go, for every pool and every byte string: find_total / '
-                   'findRelative_total (Find never panics or loops on a well-formed pool, for ANY expression and live scope, and never '
-                   'returns a freed slot), numArgs_correct / argAt_correct (= the abstract child list), closestNamedAncestor_total, '
-                   'no_freed_reachable (links of live objects reach only live objects), child_lists_agree (k in kids(p) iff live k and parent(k)=p, both directions), '
-                   'forest_parent_is_link, '
-                   'free_slots_reused_first, wfCheck_sound (the oracle\'s executable well-formedness check implies WF), '
-                   'ops_preserve_WF_partial + history_partial (newObject only), find_correct_partial (root and caret clauses). The model is tied to the Go code by regenerated constants '
-                   'and a differential run of every ObjectTree operation and query with a full pool dump after each operation; the oracle '
-                   'runs on the implementation\'s dump: WF after every in-contract op, the op\'s effect on the abstract forest, freed '
-                   'slots reused before growth, and each lookup result = the four-clause ACPI resolver on the abstracted forest.',
-        level_note='PARTIAL. Proved for all inputs: totality/no-crash of all lookups on well-formed pools, free-list reuse, no freed '
-                   'object reachable, child lists = parent links in both directions, soundness of the oracle\'s WF checker, WF preservation of newObject. NOT proved, decided by the '
-                   'oracle on generated histories only: WF preservation and abstract effect of append/appendAfter/detach/free '
-                   '(ops_preserve_WF, history) and the segment clauses of find_correct (downward descent, scope-then-enclosing-scopes search; '
-                   'the root and caret clauses are proved). Trusted: Lean kernel '
-                   '(+ propext, Classical.choice, Quot.sound), the statements in Props/C13.lean and Spec/C13.lean (WF, resolve, encode), '
-                   'the harness and replay driver (correspondence is differential testing, not a proof about the Go code).',
+        level_text='Lean theorems over the index-linked pool model of obj_tree.go, for every pool, history and byte string: '
+                   'ops_preserve_WF + history (every contract-respecting sequence of newObject/append/appendAfter/detach/free from a '
+                   'well-formed pool runs without panic and ends well-formed), per-op *_preserves_WF (exact link changes) and *_effect '
+                   '(exact change of the abstract forest: child list gains/loses/inserts one node, nothing else moves), '
+                   'child_lists_agree (k in kids(p) iff live k and parent(k)=p), no_freed_reachable, free_slots_reused_first, '
+                   'find_total (no panic / no loop for ANY byte string), find_correct (Find(encode p) = the four-clause ACPI resolver on '
+                   'the abstracted forest for every valid path: root prefix, carets, single-segment scope-then-enclosing-scopes search, '
+                   'multi-segment downward only; every segment count), numArgs_correct, argAt_correct, closestNamedAncestor_total, '
+                   'wfCheck_sound + decode_sound (the replay oracle\'s checks are instances of WF / find_correct). The model is tied to '
+                   'the Go code by regenerated constants and a differential run of every ObjectTree operation and query with a full pool '
+                   'dump after each operation; the oracle runs on the implementation\'s dump.',
+        level_note='All clauses of the property are proved for the model (no _partial theorem left). Not proved: the specification of '
+                   'ClosestNamedAncestor (only its totality; its result is checked by the oracle), and completeness of wfCheck (only '
+                   'soundness). Torn pool states after a mid-operation Go panic (contract violations only) are not modelled. '
+                   'Trusted: Lean kernel (+ propext, Classical.choice, Quot.sound), the statements in Props/C13.lean and Spec/C13.lean '
+                   '(WF, resolve, encode, the caller contracts), the harness and replay driver (correspondence model<->Go code is '
+                   'differential testing on generated inputs, not a proof about the Go code).',
 )
